@@ -8,6 +8,8 @@ from __future__ import annotations
 from pathlib import Path
 from typing import Any
 
+import numpy as np
+
 from vmon import common as C
 from vmon import outscn
 
@@ -19,7 +21,7 @@ LEVEL_TEXT = ("Real end-to-end runs over generated release/death histories (reco
 LEVEL_NOTE = "f4 encodings compared at 2e-6 relative, f8/i4 exactly. Trusts netCDF4 for reading back and the harness's snapshot hook (hook call count reported)."
 RULE = ("case = (dt, steps, period, numrec, layout, reference, release steps and sizes, IBM kill schedule, particle variables or not, lon/lat or not, encoding, moving water). "
         "Non-trivial: at least one death or a late release so that record sizes change; distinct by the whole parameter tuple.")
-MANDATORY = ["sparse", "dense", "empty_record", "highest_pids_dead_at_file_end", "all_dead_at_end", "late_first_release", "multifile", "explicit_reference",
+MANDATORY = ["packed_output_variable", "forcing_derived_values_checked", "sparse", "dense", "empty_record", "highest_pids_dead_at_file_end", "all_dead_at_end", "late_first_release", "multifile", "explicit_reference",
              "particle_variables", "lonlat_output", "f4_encoding", "records_compared", "dense_lonlat_with_deaths", "warm_started_run_checked"]
 ASSUMPTIONS = ["durations are multiples of the time step; residues of steps modulo the period are C07's subject but occur here too"]
 TIMEOUT = {"quick": 900, "thorough": 3000}
@@ -60,9 +62,22 @@ def gen_cases(tier: str, seed: int) -> list[dict[str, Any]]:
 
 
 def run_case(case: dict[str, Any], wd: Path) -> dict[str, Any]:
+    case = dict(case, packed_out=bool(case["idx"] % 4 == 2 and case["enc"] == "f8"), scalar=bool(case["idx"] % 4 == 1))
     out = outscn.run_and_check(case, wd)
     res, snaps, V, cnt = out["res"], out["snaps"], out["V"], out["cnt"]
     sit: dict[str, int] = {}
+    sit["packed_output_variable"] = int(cnt.get("packed_values_compared", 0) > 0)
+    if case["scalar"] and res.ok and not V:
+        # "the values the model state had at that time": a forcing-derived variable in a record belongs to the record's own positions
+        for f in out["files"]:
+            for r in f.records:
+                if "temp" not in r.vars or not len(r.pid):
+                    continue
+                want = 3.0 + 0.5 * np.round(np.asarray(r.vars["X"], float)) - 0.25 * np.round(np.asarray(r.vars["Y"], float))
+                sit["forcing_derived_values_checked"] = sit.get("forcing_derived_values_checked", 0) + len(want)
+                if np.max(np.abs(np.asarray(r.vars["temp"], float) - want)) > 1e-6 and len(V) < 2:
+                    V.append(C.viol(f"{f.path.name} record at {r.time}: forcing-derived variable temp = {np.asarray(r.vars['temp'])[:5].tolist()}, the forcing field in the cells of the record's "
+                                    f"own positions holds {want[:5].tolist()}", params=case))
     sit[case["layout"]] = 1
     sit["multifile"] = int(case["numrec"] > 0)
     sit["explicit_reference"] = int(case["reference"] is not None)
